@@ -1628,7 +1628,7 @@ func (db *DB) RequestWithContext(ctx context.Context, req *command.Request, xTim
 		}
 
 		if ro {
-			rows, opErr := db.queryStmtWithConn(ctx, stmt, xTime, eq)
+			rows, opErr := db.queryStmtNoWrites(ctx, stmt, xTime, conn, eq)
 			if req.QualifyColumns && rows != nil && rows.Error == "" {
 				if qErr := qualifyRowColumns(conn, stmt.Sql, rows); qErr != nil {
 					db.logger.Printf("qualify columns: %s", qErr.Error())
@@ -1651,6 +1651,29 @@ func (db *DB) RequestWithContext(ctx context.Context, req *command.Request, xTim
 		err = tx.Commit()
 	}
 	return eqResponse, err
+}
+
+// queryStmtNoWrites runs a statement that was classified as read-only on the
+// read-write connection conn, with writes disabled for its duration. The read-only
+// verdict covers only the first statement of the text, and SQLite reports some
+// statements that do write (PRAGMA optimize, for example) as read-only, so without
+// this anything following the first statement would run unchecked.
+func (db *DB) queryStmtNoWrites(ctx context.Context, stmt *command.Statement, xTime bool, conn *sql.Conn, q queryer) (*command.QueryRows, error) {
+	// The setting is changed on the connection itself, not through any transaction
+	// in progress, so that it can always be restored, even if ctx expires.
+	if _, err := conn.ExecContext(context.Background(), "PRAGMA query_only=ON"); err != nil {
+		return &command.QueryRows{Error: err.Error()}, err
+	}
+	defer func() {
+		if _, err := conn.ExecContext(context.Background(), "PRAGMA query_only=OFF"); err != nil {
+			db.logger.Printf("failed to re-enable writes on read-write connection: %s", err.Error())
+		}
+	}()
+	rows, err := db.queryStmtWithConn(ctx, stmt, xTime, q)
+	if se := NewSQLiteErrorFromError(err); se != nil && se.ReadOnlyError() {
+		err = ErrQueryWrite
+	}
+	return rows, err
 }
 
 // Backup writes a consistent snapshot of the database to the given file.
